@@ -427,6 +427,11 @@ func (self *linkedPairs) Swap(i, j int) {
 
 func (self *linkedPairs) Sort() {
 	sort.Stable(self)
+	if self.index != nil {
+		/* Swap() leaves the entry of a duplicated key on whichever occurrence
+		 * moved last: point it back at the first one */
+		self.BuildIndex()
+	}
 }
 
 // Compare two strings from the pos d.
